@@ -404,6 +404,7 @@ func Main(m *testing.M, prop string) {
 		_ = os.WriteFile(out, b, 0o644)
 	}
 	mu.Unlock()
+	CleanupCerts()
 	os.Exit(code)
 }
 
